@@ -97,20 +97,21 @@ EXTRA = [   # the raw-pointer variants are only constructible through unsafe fns
 ]
 
 
-def compile_programs(ctx, progs):
-    """progs: list of (name, source).  Returns {name: accepted?}"""
-    proj = os.path.join(ctx.out, "probes")
+def compile_programs(ctx, progs, features=("std", "devices", "dim_check_release"), tag="probes", run=False):
+    """progs: list of (name, source).  Returns {name: (accepted?, error code or run status)}"""
+    proj = os.path.join(ctx.out, tag)
     shutil.rmtree(proj, ignore_errors=True)
     os.makedirs(os.path.join(proj, "src", "bin"))
     os.makedirs(os.path.join(proj, ".cargo"))
     open(os.path.join(proj, "Cargo.toml"), "w").write(
         '[package]\nname = "probes"\nversion = "0.0.0"\nedition = "2021"\npublish = false\n[workspace]\n[dependencies]\n'
-        'rrtk = { path = "/repo", default-features = false, features = ["std", "devices", "dim_check_release"] }\n')
+        'rrtk = { path = "/repo", default-features = false, features = [%s] }\n' % ", ".join('"%s"' % f for f in features))
     open(os.path.join(proj, ".cargo", "config.toml"), "w").write('[net]\noffline = true\n')
     shutil.copy(os.path.join(vlib.HARNESS, "Cargo.lock"), os.path.join(proj, "Cargo.lock"))
     for name, src in progs:
         open(os.path.join(proj, "src", "bin", name + ".rs"), "w").write(src)
-    cmd = ["cargo", "check", "--offline", "--bins", "--keep-going", "--message-format=json", "--target-dir", os.path.join(vlib.HARNESS, "target-probes")]
+    cmd = ["cargo", "build" if run else "check", "--offline", "--bins", "--keep-going", "--message-format=json",
+           "--target-dir", os.path.join(vlib.HARNESS, "target-" + tag)]
     p = subprocess.run(cmd, cwd=proj, stdout=subprocess.PIPE, stderr=subprocess.PIPE, text=True)
     ok, err = set(), {}
     for line in p.stdout.splitlines():
@@ -128,7 +129,12 @@ def compile_programs(ctx, progs):
         if name in err:
             res[name] = (False, err[name])
         elif name in ok:
-            res[name] = (True, None)
+            if run:
+                exe = os.path.join(vlib.HARNESS, "target-" + tag, "debug", name)
+                r = subprocess.run([exe], stdout=subprocess.PIPE, stderr=subprocess.PIPE, text=True, timeout=60)
+                res[name] = (r.returncode == 0, None if r.returncode == 0 else "run failed: " + (r.stderr.strip().splitlines() or ["?"])[-1][:200])
+            else:
+                res[name] = (True, None)
         else:
             raise ToolError("cargo check said nothing about probe %s: %s" % (name, p.stderr[-1500:]))
     return res
